@@ -108,6 +108,12 @@ def handleUnstable (j : Json) : Except String Json := do
   return Json.mkObj [("proceeds", toJson (Unstable.proceeds flag env cmd m)),
     ("docTruthy", toJson (Unstable.envTruthyDoc env)), ("implTruthy", toJson (Unstable.envTruthyImpl env))]
 
+def handleAnalyze (j : Json) : Except String Json := do
+  let m ← Analyzer.moduleFromJson (← j.getObjVal? "module")
+  match Analyzer.analyze m with
+  | .ok () => return Json.mkObj [("ok", true)]
+  | .error e => return Json.mkObj [("ok", false), ("error", toJson e)]
+
 def handle (line : String) : Json :=
   match Json.parse line with
   | .error e => Json.mkObj [("fatal", s!"parse: {e}")]
@@ -124,6 +130,7 @@ def handle (line : String) : Json :=
       | "search" => handleSearch j
       | "dotenv" => handleDotenv j
       | "unstable" => handleUnstable j
+      | "analyze" => handleAnalyze j
       | "shsplit" => handleShSplit j
       | _ => throw s!"unknown op {op}"
     match r with
